@@ -446,9 +446,14 @@ compute_image_info (pixman_image_t *image)
 	break;
 
     case BITS:
+	/* A repeated single pixel is a solid colour, unless a convolution
+	 * kernel that does not sum to one scales it.
+	 */
 	if (image->bits.width == 1	&&
 	    image->bits.height == 1	&&
-	    image->common.repeat != PIXMAN_REPEAT_NONE)
+	    image->common.repeat != PIXMAN_REPEAT_NONE &&
+	    image->common.filter != PIXMAN_FILTER_CONVOLUTION &&
+	    image->common.filter != PIXMAN_FILTER_SEPARABLE_CONVOLUTION)
 	{
 	    code = PIXMAN_solid;
 	}
